@@ -439,3 +439,31 @@ pub fn load_compliance(dir: &str) -> Vec<(String, Value, Vec<Value>)> {
     }
     out
 }
+
+// ---------------------------------------------------------------------------
+// attribution to the recorded deviation D15 (projection right-hand side ends
+// after ".[multi-select list]")
+
+/// True iff the variant grammar parses `text` to a different tree than `want`
+/// AND that tree, evaluated by the reference, reproduces what the crate returned.
+pub fn d15_explains(
+    ev: &refimpl::eval::Evaluator,
+    text: &str,
+    want_canon: &str,
+    doc: &Value,
+    got: &Result<Value, &'static str>,
+) -> bool {
+    use refimpl::parse::{parse, Opts};
+    let alt = Opts {
+        dot_list_stops: true,
+        ..Opts::strict()
+    };
+    match parse(text, &alt) {
+        Ok(q) if refimpl::nf::canon(&q) != want_canon => match (ev.eval(&q, doc), got) {
+            (Ok(y), Ok(g)) => refimpl::json::val_eq(&y, g, 1e-12),
+            (Err(e), Err(cls)) => e.class() == *cls,
+            _ => false,
+        },
+        _ => false,
+    }
+}
